@@ -5,7 +5,8 @@
    NaN (mean of an empty array, 0/0) is Err E_NAN / None on the code side. *)
 From Coq Require Import ZArith List QArith Qcanon Sorted.
 From Batchie Require Import Lib.Sexp Lib.Num Model.Metrics Model.Synergy Model.Corr
-  Proofs.C20Spec Proofs.C20Base Proofs.C20Metrics Proofs.C20Synergy Proofs.C20Corr.
+  Proofs.C20Spec Proofs.C20Base Proofs.C20Metrics Proofs.C20Synergy Proofs.C20Corr
+  Generated.SrcSynergy Proofs.C20Source.
 Import ListNotations.
 
 (* ---- ModelEvaluation ----  e is any evaluation the constructor accepts: n = length P experiments,
@@ -181,6 +182,49 @@ Theorem C20_corr_over_full_space : forall orc f mapping smap arity T rows index 
               (length space).
 Proof. exact correlation_matrix_over_full_space. Qed.
 Print Assumptions C20_corr_over_full_space.
+
+(* ---- source-translation links ----  Generated/SrcSynergy.v is re-translated from /repo on every run (harness/py2gal.py,
+   configurations C20_* of harness/src_functions.py); arity = treatment_ids.shape[1].  No side condition. *)
+
+(* data.py create_single_treatment_effect_map (arity raise, the mask, the three masked arrays, both loops over np.unique,
+   the control entry, the mask of matching single-agent rows, np.any, the mean, the dict stores) = Synergy.effect_map *)
+Theorem C20_model_is_source_create_single_treatment_effect_map :
+  forall (arity : nat) (sids : list Z) (tids : list (list Z)) (obs : list Qc),
+  src_create_single_treatment_effect_map arity sids tids obs = effect_map arity sids tids obs.
+Proof. exact src_effect_map_is_model. Qed.
+Print Assumptions C20_model_is_source_create_single_treatment_effect_map.
+
+(* data.py create_single_treatment_effect_array (the translated map, np.ones_like, both enumerate loops, the dict read
+   with its KeyError, the store result[idx, treatment_idx] = ...) = Synergy.effect_array *)
+Theorem C20_model_is_source_create_single_treatment_effect_array :
+  forall (arity : nat) (sids : list Z) (tids : list (list Z)) (obs : list Qc),
+  src_create_single_treatment_effect_array arity sids tids obs = effect_array arity sids tids obs.
+Proof. exact src_effect_array_is_model. Qed.
+Print Assumptions C20_model_is_source_create_single_treatment_effect_array.
+
+(* synergy.py calculate_synergy (the three raises, the translated map, the mask and its negation, the loop over the
+   multi-treatment rows, the inner loop with the strict raise / lenient continue, the length comparison, np.prod minus
+   the observation, the three appends, np.array of the results) = Synergy.calculate_synergy *)
+Theorem C20_model_is_source_calculate_synergy :
+  forall (arity : nat) (sids : list Z) (tids : list (list Z)) (obs : list Qc) (strict : bool),
+  src_calculate_synergy arity sids tids obs strict = calculate_synergy strict arity sids tids obs.
+Proof. exact src_calculate_synergy_is_model. Qed.
+Print Assumptions C20_model_is_source_calculate_synergy.
+
+(* hence the definitional theorems are theorems about the translated source *)
+Theorem C20_source_synergy_def : forall arity sids tids obs,
+  (2 <= arity)%nat -> length sids = length tids -> length obs = length tids ->
+  Forall (fun r => length r = arity) tids -> Forall (Forall valid_id) tids ->
+  forall strict, src_calculate_synergy arity sids tids obs strict = synergy_def sids tids obs strict.
+Proof. exact src_synergy_is_definition. Qed.
+Print Assumptions C20_source_synergy_def.
+
+Theorem C20_source_effect_array_def : forall arity sids tids obs,
+  (2 <= arity)%nat -> length sids = length tids -> length obs = length tids ->
+  Forall (fun r => length r = arity) tids -> Forall (Forall valid_id) tids ->
+  src_create_single_treatment_effect_array arity sids tids obs = effect_array_def sids tids obs.
+Proof. exact src_effect_array_is_definition. Qed.
+Print Assumptions C20_source_effect_array_def.
 
 (* ---- non-vacuity: concrete instances (vm_compute) ---- *)
 Definition q (n : Z) (d : positive) : Qc := Q2Qc (n # d).
